@@ -12,6 +12,7 @@ from __future__ import annotations
 import json
 import os
 import random
+import sys
 import time
 from concurrent.futures import ThreadPoolExecutor
 
@@ -28,6 +29,8 @@ TOL = 1e-9
 SIG_NO_ORIGIN = "centroids-indexerror-without-origin"          # GridIndex/OctreeRefine/CentroidCache: DefaultOriginRaises
 SIG_DRAPE_STALE = "drape-centroids-stale-after-setter"         # CentroidCache: DrapeSettersKeepCache
 SIG_PARTS_ISOLATED = "parts-isolated-vertex-joins-part-zero"   # CurveParts: ScanLeavesIsolatedInPartZero
+SIG_PARTS_FIRST = "parts-before-vertices-ignored"              # CurveParts: ChainAllVertices as built for create(parts=, vertices=)
+SIG_RECOUNT = "octree-default-cells-ignore-count-change"       # OctreeRefine: CountSetterKeepsDefaultCells
 SIG_REL_FIRST = "block-centres-relative-to-first-delimiter"    # GridIndex: RelFirstDelimiter (only with Starts # {1})
 
 # ---------------------------------------------------------------------------------------------- tiers
@@ -41,6 +44,8 @@ FILE_SAMPLE = {"quick": 100, "thorough": 1500}      # cases per GridIndex cfg re
 REFINE_CFG = {"quick": "OctreeRefineQuick.cfg", "thorough": "OctreeRefineFull.cfg"}
 CURVE_CFG = {"quick": "CurvePartsQuick.cfg", "thorough": "CurvePartsFull.cfg"}
 CURVE_EDIT_CFG = {"quick": "CurveEditQuick.cfg", "thorough": "CurveEditFull.cfg"}
+CURVE_STORE_CFG = {"quick": "CurveStoreQuick.cfg", "thorough": "CurveStoreFull.cfg"}
+RECOUNT_CFG = {"quick": "OctreeRecountQuick.cfg", "thorough": "OctreeRecountFull.cfg"}
 READONLY_STATES = {"quick": 40, "thorough": 400}     # parameter states per class probed in a read-only workspace
 CACHE_KINDS = ["Grid2D", "Block", "Octree", "Drape"]
 CACHE_SCOPE = {"quick": 1, "thorough": 2}
@@ -54,6 +59,8 @@ NEG_CONTROLS = [
     ("CurveParts", "CurvePartsNegChain.cfg", "JoinConsecutiveSamePartOnly"),
     ("CurveParts", "CurvePartsAsBuilt.cfg", "PartsAgreeWithConnectivity"),
     ("CurveParts", "CurveEditNegKeeps.cfg", "PartsAgreeAfterEdit"),
+    ("CurveStore", "CurveStoreNegLazy.cfg", "StoredFollowsLive"),
+    ("OctreeRefine", "OctreeRecountAsBuilt.cfg", "TilesAfterRecount"),
     ("CentroidCache", "CentroidCacheNegReadOnly.cfg", "CacheCoherent"),
     ("CentroidCache", "CentroidCacheNegRotation.cfg", "CacheCoherent"),
     ("CentroidCache", "CentroidCacheNegCount.cfg", "CacheCoherent"),
@@ -97,6 +104,20 @@ def first_diff(a, b):
 def canon(cases):
     """TLC runs with several workers print cases in a varying order: sort them, so that seeded samples are stable."""
     return sorted(cases, key=lambda c: json.dumps(c, sort_keys=True))
+
+
+def quiet_close(ws):
+    """Workspace.close() shells out to h5repack, which is not installed here: keep the shell's complaint off stderr."""
+    sys.stderr.flush()
+    saved = os.dup(2)
+    devnull = os.open(os.devnull, os.O_WRONLY)
+    try:
+        os.dup2(devnull, 2)
+        ws.close()
+    finally:
+        os.dup2(saved, 2)
+        os.close(saved)
+        os.close(devnull)
 
 
 def origin_of(obj):
@@ -226,7 +247,7 @@ def _replay_grid_file(case):
         try:
             ws = Workspace.create(path)
             uid = _make_grid_object(ws, case).uid
-            ws.close()
+            quiet_close(ws)
         except Exception as exc:  # pylint: disable=broad-except
             bad(f"{kind}-create-raises:{type(exc).__name__}", f"creation in a file refused: {type(exc).__name__}: {exc}")
             return viol
@@ -278,6 +299,55 @@ def _replay_refine(case):
         got = read_centroids(obj)
         asb_err = case["asbuilt"] if case["asbuilt"] != "same" else None
         judge_centroids("octree", got, obj.n_cells, len(want), ideal, asb_err, None, None, bad)
+    return viol
+
+
+def _replay_recount(case):
+    """Default octree, then one base dimension is assigned: refused or re-refined, never cells of another grid."""
+    from geoh5py import Workspace
+    from geoh5py.objects import Octree
+    viol = []
+
+    def bad(sig, msg):
+        viol.append({"signature": sig, "summary": msg, "case": {"engine": "recount", "case": case}})
+
+    inp = case["inp"]
+    sizes = [rat(s) for s in case["sizes"]]
+    kw = {"origin": vec(case["origin"])} if inp["hasO"] else {}
+    text = f"default octree ({inp['nu']},{inp['nv']},{inp['nw']}), {case['axis']} = {case['value']}"
+    with Workspace() as ws:
+        try:
+            obj = Octree.create(ws, u_count=inp["nu"], v_count=inp["nv"], w_count=inp["nw"], u_cell_size=sizes[0],
+                                v_cell_size=sizes[1], w_cell_size=sizes[2], **kw)
+            before = sorted(tuple(int(x) for x in r) for r in np.asarray(obj.octree_cells).tolist())
+        except Exception as exc:  # pylint: disable=broad-except
+            bad(f"octree-default-cells-raise:{type(exc).__name__}", f"{text}: {type(exc).__name__}: {exc}")
+            return viol
+        if before != sorted(tuple(r) for r in case["cells"]):
+            bad("octree-default-cells", f"{text}: cells before the change {before}")
+            return viol
+        try:
+            setattr(obj, case["axis"], int(case["value"]))
+        except Exception:  # pylint: disable=broad-except
+            pass                                    # a refusal is one of the two accepted outcomes
+        try:
+            dims = [int(obj.u_count), int(obj.v_count), int(obj.w_count)]
+            cells = sorted(tuple(int(x) for x in r) for r in np.asarray(obj.octree_cells).tolist())
+            n_cent = len(obj.centroids)
+        except Exception as exc:  # pylint: disable=broad-except
+            bad(f"octree-recount-raises:{type(exc).__name__}", f"{text}: {type(exc).__name__}: {exc}")
+            return viol
+        if any(dims == o["dims"] and cells == sorted(tuple(r) for r in o["cells"]) for o in case["ok"]):
+            if n_cent != len(cells):
+                bad("octree-centroid-count", f"{text}: {n_cent} centres for {len(cells)} cells")
+            return viol
+        asb = case["asbuilt"]
+        if dims == asb["dims"] and cells == sorted(tuple(r) for r in asb["cells"]):
+            bad(SIG_RECOUNT, f"{text}: the octree now reports base dimensions {dims} but keeps the {len(cells)} default cells "
+                             f"of the old dimensions {funcheck.short(cells, 200)}: they do not tile the base grid")
+        else:
+            bad("octree-recount", f"{text}: dimensions {dims}, cells {funcheck.short(cells, 300)}; accepted: "
+                                  f"{funcheck.short(case['ok'], 400)}")
     return viol
 
 
@@ -345,6 +415,22 @@ def _replay_curve(case):
                                         f"part are {case['cells']}")
                 continue
             _judge_parts(obj, case, mode, bad)
+        # (a') the same labels handed over BEFORE the vertices (keyword order must not matter)
+        mode = "parts before vertices"
+        try:
+            obj = Curve.create(ws, parts=[lab - 1 for lab in case["labels"]], vertices=verts)
+            cells = obj.cells
+            cells = [] if cells is None else np.asarray(cells).tolist()
+            got = sorted((min(int(a), int(b)), max(int(a), int(b))) for a, b in cells)
+            if got != want_cells:
+                if got == sorted(tuple(c) for c in case["chain"]):
+                    bad(SIG_PARTS_FIRST, f"[{mode}] Curve.create(parts={[lab - 1 for lab in case['labels']]}, vertices=...) "
+                                         f"ignores the labels: cells {cells} join all vertices in sequence; consecutive "
+                                         f"vertices of the same part are {case['cells']}")
+                else:
+                    bad("cells-from-parts", f"[{mode}] labels {case['labels']}: cells {cells}; expected {case['cells']}")
+        except Exception as exc:  # pylint: disable=broad-except
+            bad(f"cells-from-parts-raise:{type(exc).__name__}", f"[{mode}] labels {case['labels']}: {type(exc).__name__}: {exc}")
         # (b) create with the cells -> read parts
         if case["cells"]:
             mode = "cells->parts"
@@ -418,6 +504,156 @@ def _replay_curve_edit(case):
                 continue
             _judge_partition(parts, case["n2"], want2, f"parts-disagree-with-connectivity-after-{op}",
                              text + f": cells are now {cells}", bad)
+    return viol
+
+
+# ---------------------------------------------------------------------------------------------- engine 3b: CurveStore
+def _pairs(cells):
+    return sorted((min(int(a), int(b)), max(int(a), int(b))) for a, b in cells)
+
+
+def _store_walks(res, tier, seed):
+    """CurveStore graph -> walks covering every transition, and the same walks with a Reopen after every action that
+    changes the geometry (followed on the exported graph)."""
+    g = tlc.build_graph(res.lines)
+    init = graph.split_init(res.lines)
+    if not init or not g.edges:
+        raise MachineryError("CurveStore: empty export")
+    succ = {(src, lab["act"], json.dumps(lab["arg"])): idx for idx, (src, _d, lab) in enumerate(g.edges)}
+    paths, unreachable = _long_cover(g.edges, init, max_len=25)
+    if unreachable:
+        raise MachineryError(f"CurveStore: {unreachable} transitions not reachable")
+
+    def follow(start, labels, reopen):
+        cur, steps = start, []
+        for act, arg in labels:
+            idx = succ.get((cur, act, arg))
+            if idx is None:
+                break                    # (RemoveCells index no longer valid after an inserted Reopen cannot happen: Reopen keeps the state)
+            _, cur, lab = g.edges[idx]
+            steps.append([lab, g.states[cur]])
+            if reopen and act in ("SetParts", "RemoveCells"):
+                _, cur, lab = g.edges[succ[(cur, "Reopen", "[]")]]
+                steps.append([lab, g.states[cur]])
+        if not steps or steps[-1][0]["act"] != "Reopen":
+            _, cur, lab = g.edges[succ[(cur, "Reopen", "[]")]]
+            steps.append([lab, g.states[cur]])
+        return steps
+
+    walks = []
+    for path in paths:
+        start = g.edges[path[0]][0]
+        labels = [(g.edges[i][2]["act"], json.dumps(g.edges[i][2]["arg"])) for i in path]
+        walks.append({"init": g.states[start], "steps": follow(start, labels, False)})
+        walks.append({"init": g.states[start], "steps": follow(start, labels, True)})
+    n_then_reopen = sum(1 for w in walks for a, b in zip(w["steps"], w["steps"][1:])
+                        if a[0]["act"] == "SetParts" and b[0]["act"] == "Reopen")
+    stats = {"states": len(g.states), "transitions": len(g.edges), "walks": len(walks),
+             "steps": sum(len(w["steps"]) for w in walks), "setparts_then_reopen": n_then_reopen}
+    return walks, stats
+
+
+def _stored_cells(ws, uid):
+    """The Cells dataset as it sits in the file (read through the workspace's own handle, not through the object)."""
+    h5 = ws.geoh5
+    base = list(h5)[0]
+    group = h5[base]["Objects"]["{" + str(uid) + "}"]
+    return [] if "Cells" not in group else group["Cells"][:].tolist()
+
+
+def _replay_store_walk(item, shrink=True):
+    import uuid as _uuid
+    from geoh5py import Workspace
+    from geoh5py.objects import Curve
+    from ..pool import scratch
+    viol = []
+    done = []
+
+    def bad(sig, msg):
+        small = None
+        if shrink and len(done) > 2:
+            steps = item["steps"][:len(done)]
+            for start in range(len(steps) - 1, 0, -1):
+                if steps[start - 1][1]["pending"]:
+                    continue
+                cand = {"init": steps[start - 1][1], "steps": steps[start:]}
+                found = [v for v in _replay_store_walk(cand, shrink=False) if v["signature"] == sig]
+                if found:
+                    small = found[0]
+                    break
+        viol.append(small or {"signature": sig, "summary": f"after {done}: {msg}", "case": {"engine": "store", "item": item}})
+
+    st0 = item["init"]
+    n = st0["n"]
+    verts = np.array([[float(i), 0.5 * i * i, -1.0 * i] for i in range(n)])
+    path = os.path.join(scratch(), f"c17_st_{_uuid.uuid4().hex}.geoh5")
+    ws = None
+    try:
+        try:
+            ws = Workspace.create(path)
+            kw = {"cells": np.array(st0["live"], dtype="uint32")} if st0["live"] else {}
+            obj = Curve.create(ws, vertices=verts, **kw)
+            if not st0["live"]:
+                obj.parts = list(range(n))         # every vertex its own part: no segments
+            uid = obj.uid
+        except Exception as exc:  # pylint: disable=broad-except
+            bad(f"curve-create-raises:{type(exc).__name__}", f"{type(exc).__name__}: {exc}")
+            return viol
+        for label, st in item["steps"]:
+            act = label["act"]
+            try:
+                if act == "SetParts":
+                    done.append(f"parts={[lab - 1 for lab in label['arg']]}")
+                    obj.parts = [lab - 1 for lab in label["arg"]]
+                elif act == "RemoveCells":
+                    done.append(f"remove_cells({sorted(label['arg'])})")
+                    obj.remove_cells(sorted(label["arg"]))
+                elif act == "ReadCells":
+                    done.append("read cells")
+                    cells = obj.cells
+                    if _pairs([] if cells is None else np.asarray(cells).tolist()) != _pairs(label["cells"]):
+                        bad("curve-live-cells", f"live cells {np.asarray(cells).tolist()}, expected {label['cells']}")
+                        return viol
+                elif act == "ReadParts":
+                    done.append("read parts")
+                    if _partition(np.asarray(obj.parts).tolist()) != sorted(sorted(b) for b in label["parts"]):
+                        bad("parts-disagree-with-connectivity", f"live parts {np.asarray(obj.parts).tolist()}, components "
+                                                                f"{label['parts']}")
+                        return viol
+                elif act == "Reopen":
+                    done.append("close, reopen")
+                    quiet_close(ws)
+                    ws = Workspace(path, mode="r+")
+                    obj = ws.get_entity(uid)[0]
+                    cells = obj.cells
+                    cells = [] if cells is None else np.asarray(cells).tolist()
+                    if _pairs(cells) != _pairs(label["cells"]):
+                        bad("curve-cells-after-reopen", f"the re-opened curve has segments {cells}; before closing the curve "
+                                                        f"was {label['cells']}")
+                        return viol
+                    if _partition(np.asarray(obj.parts).tolist()) != sorted(sorted(b) for b in label["parts"]):
+                        bad("curve-parts-after-reopen", f"the re-opened curve has parts {np.asarray(obj.parts).tolist()}; "
+                                                        f"components {label['parts']}")
+                        return viol
+                else:
+                    raise MachineryError(f"unknown action {act}")
+            except MachineryError:
+                raise
+            except Exception as exc:  # pylint: disable=broad-except
+                bad(f"curve-{act}-raises:{type(exc).__name__}", f"{type(exc).__name__}: {exc}")
+                return viol
+            stored = _stored_cells(ws, uid)          # the stored view, after every action, without touching the object
+            if _pairs(stored) != _pairs(st["stored"]):
+                bad(f"curve-stored-cells-after-{act}", f"the file stores segments {stored}; the curve is {st['stored']}")
+                return viol
+    finally:
+        try:
+            if ws is not None:
+                quiet_close(ws)
+        except Exception:  # pylint: disable=broad-except
+            pass
+        if os.path.exists(path):
+            os.remove(path)
     return viol
 
 
@@ -736,7 +972,7 @@ def _replay_readonly(item):
         try:
             ws = Workspace.create(path)
             uid = _create_cached(ws, kind, item["init"]).uid
-            ws.close()
+            quiet_close(ws)
         except Exception as exc:  # pylint: disable=broad-except
             return [{"signature": "__skipped__", "summary": f"state cannot be created directly: {type(exc).__name__}", "case": {}}]
         for probe in item["probes"]:
@@ -829,17 +1065,20 @@ def run(tier, seed):
         jobs += [(("grid", cfg), "GridIndex", cfg, wk, None) for cfg, _ in GRID_CFG[tier]]
     if "refine" in sel:
         jobs.append((("refine", REFINE_CFG[tier]), "OctreeRefine", REFINE_CFG[tier], wk, None))
+        jobs.append((("refine", RECOUNT_CFG[tier]), "OctreeRefine", RECOUNT_CFG[tier], wk, None))
     if "curve" in sel:
         jobs.append((("curve", CURVE_CFG[tier]), "CurveParts", CURVE_CFG[tier], wk, None))
         jobs.append((("curve", CURVE_EDIT_CFG[tier]), "CurveParts", CURVE_EDIT_CFG[tier], wk, None))
+        jobs.append((("curve-store", CURVE_STORE_CFG[tier]), "CurveStore", CURVE_STORE_CFG[tier], 1, None))
     if "cache" in sel:
         for kind in CACHE_KINDS:
             sc = CACHE_SCOPE[tier]
             jobs.append((("cache-ideal", kind), "CentroidCache", f"CentroidCache{kind}Ideal{sc}.cfg", wk, None))
             jobs.append((("cache-graph", kind), "CentroidCache", f"CentroidCache{kind}Export{sc}.cfg", 1, None))
             jobs.append((("cache-ro", kind), "CentroidCache", f"CentroidCache{kind}ReadOnly{sc}.cfg", 1, None))
-    prefix = {"grid": "GridIndex", "refine": "OctreeRefine", "curve": "CurveParts", "cache": "CentroidCache"}
-    negs = [n for n in NEG_CONTROLS if any(n[0] == prefix[e] for e in sel)]
+    prefix = {"grid": ("GridIndex",), "refine": ("OctreeRefine",), "curve": ("CurveParts", "CurveStore"),
+              "cache": ("CentroidCache",)}
+    negs = [n for n in NEG_CONTROLS if any(n[0] in prefix[e] for e in sel)]
     jobs += [(("neg", cfg), module, cfg, 2, expect) for module, cfg, expect in negs]
     # longest first
     jobs.sort(key=lambda j: 0 if "Full" in j[2] or "Two" in j[2] or j[2].endswith("2.cfg") else 1)
@@ -852,7 +1091,7 @@ def run(tier, seed):
     samples = []
     exhaustive = True
     for key, res in results.items():
-        if key[0] in ("grid", "refine", "curve", "cache-ideal", "cache-ro"):
+        if key[0] in ("grid", "refine", "curve", "curve-store", "cache-ideal", "cache-ro"):
             states += res.distinct
             trans += res.generated
 
@@ -897,6 +1136,11 @@ def run(tier, seed):
         per[REFINE_CFG[tier]]["dimension_triples"] = len(dims)
         mid = chosen[len(chosen) // 2]
         samples.append({"engine": "OctreeRefine", "inp": mid["inp"], "cells": mid["out"]["cells"][:4]})
+        cases, chosen = function_engine("OctreeRefine", ("refine", RECOUNT_CFG[tier]), _replay_recount, None)
+        if {c["axis"] for c in chosen} != {"u_count", "v_count", "w_count"}:
+            raise MachineryError("OctreeRefine recount: not every axis exercised")
+        mid = chosen[len(chosen) // 2]
+        samples.append({"engine": "OctreeRefine-recount", "inp": mid["inp"], "axis": mid["axis"], "value": mid["value"]})
     if "curve" in sel:
         cases, chosen = function_engine("CurveParts", ("curve", CURVE_CFG[tier]), _replay_curve, None)
         if not any(len(b) == 1 for c in chosen for b in c["parts"]) or not any(len(c["labels"]) >= 5 for c in chosen):
@@ -909,6 +1153,19 @@ def run(tier, seed):
             raise MachineryError(f"CurveParts edits: operations {ops}, or no edit that splits a part")
         mid = chosen[len(chosen) // 2]
         samples.append({"engine": "CurveParts-edit", "case": mid})
+        res = results[("curve-store", CURVE_STORE_CFG[tier])]
+        walks, stats = _store_walks(res, tier, seed)
+        if stats["setparts_then_reopen"] == 0:
+            raise MachineryError("CurveStore: no SetParts followed directly by a Reopen")
+        v, wall = funcheck.replay_all(_replay_store_walk, walks)
+        viol += v
+        replayed += len(walks)
+        stats.update({"engine": "CurveStore", "tlc_states": res.distinct, "tlc_generated": res.generated,
+                      "replay_wall_s": round(wall, 1), "violations": len(v)})
+        per[CURVE_STORE_CFG[tier]] = stats
+        w = walks[len(walks) // 2]
+        samples.append({"engine": "CurveStore", "walk": [lab["act"] + ("=" + funcheck.short(lab["arg"], 30) if lab["arg"] else "")
+                                                         for lab, _ in w["steps"]]})
     if "cache" in sel:
         for kind in CACHE_KINDS:
             res = results[("cache-graph", kind)]
@@ -986,6 +1243,10 @@ def replay(doc):
         v = _replay_curve(case["case"])
     elif eng == "cache":
         v = _replay_walk(case["item"])
+    elif eng == "recount":
+        v = _replay_recount(case["case"])
+    elif eng == "store":
+        v = _replay_store_walk(case["item"])
     elif eng == "curve-edit":
         v = _replay_curve_edit(case["case"])
     elif eng == "readonly":
